@@ -310,6 +310,12 @@ def fuelDefault : Nat := 40
 
 def showAll (h : Heap) (sims : List Id) : String := ";".intercalate (sims.map (showObsOf h))
 
+/-- does the region of the simulation hold an on-disk storage or a temporary directory? -/
+def hasDisk (h : Heap) (x : Id) : Bool :=
+  (h[x.reg]?.getD []).any (fun o => match o with
+    | .disk _ => true | .dir _ => true
+    | .sim _ => false | .pop _ => false | .holder _ => false | .store _ => false | .tracer _ => false | .inval _ => false)
+
 def runEvents (sys : Sys) : List (Nat × Event) → Heap → List Id → List String
   | [], _, _ => []
   | (side, ev) :: rest, h, sims =>
@@ -332,9 +338,15 @@ def runEvents (sys : Sys) : List (Nat × Event) → Heap → List Id → List St
             (showRes r ++ ";" ++ showAll h1 sims) :: runEvents sys rest h1 sims
           | _ => ("none;" ++ showAll h sims) :: runEvents sys rest h sims
       | .clone t d =>
-        match cloneSim x t d h with
+        -- the transcription for every simulation; `cloneSim` (the definition the theorems are about) must give the
+        -- very same heap whenever it gives one without touching a disk storage: checked on every clone of every case
+        match cloneSimR x t d h with
         | (.error _, _) => ["ERR"]
         | (.ok c, h1) =>
+          let agrees := match cloneSim x t d h with
+            | (.ok c', h1') => decide (c' = c) && (decide (h1' = h1) || hasDisk h x)
+            | (.error _, _) => false
+          if !agrees then ["MODEL-MISMATCH cloneSim / cloneSimR"] else
           (aliasGraph h1 x c ++ ";" ++ showAll h1 (sims ++ [c])) :: runEvents sys rest h1 (sims ++ [c])
 
 /-- what the adapter refuses as well: group entities ≥ 1 and distinct, variables in declared entities,
@@ -369,7 +381,8 @@ def handleHeap (args : List String) : String :=
       | (.ok s, h0) =>
         let h1 := runSide sys fuelDefault s pre h0
         let out := runEvents sys ((0, Event.clone t d) :: evs) h1 [s]
-        if out.contains "BAD" then "BAD" else if out.contains "ERR" then "ERR" else "|".intercalate out
+        if out.contains "BAD" then "BAD" else if out.contains "ERR" then "ERR"
+        else if out.any (fun l => l.startsWith "MODEL-MISMATCH") then "MODEL-MISMATCH cloneSim / cloneSimR" else "|".intercalate out
     | _, _, _, _, _ => "BAD"
   | _ => "BAD"
 
